@@ -412,6 +412,28 @@ func (r *Raft) heartbeat(s *followerReplication, stopCh chan struct{}) {
 		Leader: r.trans.EncodePeer(r.localID, r.localAddr),
 	}
 
+	// When this routine ends nobody reads s.notify any more. Replication to
+	// the peer ends because it was removed from the cluster (or because we are
+	// no longer leader, in which case every verify request fails anyway): the
+	// verify requests still waiting to hear from the peer are judged by the
+	// quorum of the configuration without it, see startStopReplication.
+	defer func() {
+		pending := s.takeNotify()
+		if len(pending) == 0 {
+			return
+		}
+		quorumSize := 0
+		for _, server := range r.getLatestConfiguration().Servers {
+			if server.Suffrage == Voter {
+				quorumSize++
+			}
+		}
+		quorumSize = quorumSize/2 + 1
+		for v := range pending {
+			v.dropPeer(quorumSize)
+		}
+	}()
+
 	var resp AppendEntriesResponse
 	for {
 		// Wait for the next heartbeat interval or forced notify
@@ -432,23 +454,6 @@ func (r *Raft) heartbeat(s *followerReplication, stopCh chan struct{}) {
 
 		start := time.Now()
 		if err := r.trans.AppendEntries(peer.ID, peer.Address, &req, &resp); err != nil {
-			select {
-			case <-stopCh:
-				// The peer was removed while this heartbeat was in flight and
-				// nobody reads s.notify any more (see startStopReplication).
-				quorumSize := 0
-				for _, server := range r.getLatestConfiguration().Servers {
-					if server.Suffrage == Voter {
-						quorumSize++
-					}
-				}
-				quorumSize = quorumSize/2 + 1
-				for v := range pending {
-					v.dropPeer(quorumSize)
-				}
-				return
-			default:
-			}
 			s.restoreNotify(pending)
 			nextBackoffTime := cappedExponentialBackoff(failureWait, failures, maxFailureScale, r.config().HeartbeatTimeout/2)
 			r.logger.Error("failed to heartbeat to", "peer", peer.Address, "backoff time",
